@@ -10,8 +10,10 @@ package handler
 
 import (
 	"bytes"
+	"compress/gzip"
 	"context"
 	"fmt"
+	"io"
 	"net/http"
 	"net/http/httptest"
 	"sort"
@@ -39,8 +41,8 @@ const (
 )
 
 type c02Step struct {
-	K string `json:"k"`           // H set header, S WriteHeader, W Write, Z sleep, C wait ctx.Done, P panic
-	N int    `json:"n,omitempty"` // S: status, W: chunk repetitions, Z: ticks
+	K string `json:"k"`           // H set header, S WriteHeader, W one Write, M many Writes, Z sleep, C wait ctx.Done, P panic
+	N int    `json:"n,omitempty"` // S: status, W: chunk repetitions in the one Write (~9 B each), M: number of one-chunk Writes, Z: ticks
 }
 
 type c02Req struct {
@@ -49,6 +51,8 @@ type c02Req struct {
 	BL int       `json:"bl,omitempty"` // real body length
 	CL int       `json:"cl,omitempty"` // declared Content-Length
 	Cn int       `json:"cn"`           // client cancel, ticks after arrival; -1: never
+	GZ bool      `json:"gz,omitempty"` // the body is a gzip stream and says so (Content-Encoding: gzip)
+	BB bool      `json:"bb,omitempty"` // the body never delivers: Read blocks until the case is over (the handlers never read it)
 	P  []c02Step `json:"p"`
 }
 
@@ -159,6 +163,7 @@ type c02Plan struct {
 	kinds     []int // statuses the timeout response may carry
 	f         int   // instant (ticks after arrival) at which the handler returns or panics
 	panics    bool
+	big       bool              // the handler's body is larger than 1 KB
 	badStatus bool              // the panic is raised inside WriteHeader by an out-of-range status code
 	code      int               // status of the handler's own response
 	commit    bool              // handler called WriteHeader or Write
@@ -174,6 +179,14 @@ type c02Plan struct {
 // WriteHeader code"). 600..999 are left out: net/http accepts them, the timeout
 // guard's buffer does not, the statement says nothing.
 func c02BadStatus(code int) bool { return code < 100 || code > 999 }
+
+// c02Q quotes a body for a message; large bodies are abbreviated.
+func c02Q(b []byte) string {
+	if len(b) <= 160 {
+		return fmt.Sprintf("%q", b)
+	}
+	return fmt.Sprintf("%q…%q (%d bytes)", b[:40], b[len(b)-40:], len(b))
+}
 
 func c02Chunk(id, step, n int) []byte {
 	return bytes.Repeat([]byte(fmt.Sprintf("<%s%d.%d>", c02Marker, id, step)), n)
@@ -235,9 +248,12 @@ loop:
 				p.risky = true
 			}
 			wrote()
-		case "W":
+		case "W", "M":
 			p.commit = true
 			p.body = append(p.body, c02Chunk(id, i, s.N)...)
+			if len(p.body) > 1024 {
+				p.big = true
+			}
 			wrote()
 		case "Z":
 			e += s.N
@@ -301,7 +317,7 @@ func (r *c02Rec) Write(b []byte) (int, error) {
 	r.mu.Lock()
 	defer r.mu.Unlock()
 	if r.closed {
-		r.late = append(r.late, fmt.Sprintf("Write(%q)", b))
+		r.late = append(r.late, fmt.Sprintf("Write(%s)", c02Q(b)))
 		return 0, http.ErrHandlerTimeout
 	}
 	r.commitLocked(http.StatusOK)
@@ -315,6 +331,16 @@ func (r *c02Rec) finish() {
 	defer r.mu.Unlock()
 	r.commitLocked(http.StatusOK)
 	r.closed = true
+}
+
+// c02BlockedBody is a request body whose bytes never arrive while the case runs (a
+// client that is slow to upload, or waits for 100-continue). No handler program reads
+// the body, so no response may depend on it.
+type c02BlockedBody struct{ release chan struct{} }
+
+func (b c02BlockedBody) Read([]byte) (int, error) {
+	<-b.release
+	return 0, io.EOF
 }
 
 type c02Obs struct {
@@ -412,7 +438,7 @@ func c02Valid(c c02Case) bool {
 	for _, g := range c.G {
 		risky := make([]int, len(c.R))
 		for _, q := range g {
-			if q.Rt < 0 || q.Rt >= len(c.R) || q.At < 0 || q.BL < 0 || q.CL < 0 || id >= 90 {
+			if q.Rt < 0 || q.Rt >= len(c.R) || q.At < 0 || q.BL < 0 || q.CL < 0 || id >= 90 || (q.GZ && q.BB) {
 				return false
 			}
 			seenWrite := false
@@ -427,8 +453,8 @@ func c02Valid(c c02Case) bool {
 						return false
 					}
 					seenWrite = true
-				case "W":
-					if s.N < 1 {
+				case "W", "M":
+					if s.N < 1 || s.N > 8000 {
 						return false
 					}
 					seenWrite = true
@@ -499,6 +525,10 @@ func c02Run(t *testing.T, c c02Case, build c02Builder, leakExpected bool) (v kit
 					w.WriteHeader(s.N)
 				case "W":
 					w.Write(c02Chunk(id, i, s.N))
+				case "M":
+					for j := 0; j < s.N; j++ {
+						w.Write(c02Chunk(id, i, 1))
+					}
 				case "Z":
 					time.Sleep(time.Duration(s.N) * c02Tick)
 				case "C":
@@ -518,6 +548,7 @@ func c02Run(t *testing.T, c c02Case, build c02Builder, leakExpected bool) (v kit
 			return
 		}
 		start := time.Now()
+		release := make(chan struct{})
 		var wg sync.WaitGroup
 		for _, fl := range flat {
 			fl := fl
@@ -544,8 +575,21 @@ func c02Run(t *testing.T, c c02Case, build c02Builder, leakExpected bool) (v kit
 					tm := time.AfterFunc(time.Duration(fl.q.Cn)*c02Tick, cancel)
 					defer tm.Stop()
 				}
-				r := httptest.NewRequest(c02Method(c.R[fl.q.Rt].M), c.routePath(fl.q.Rt),
-					strings.NewReader(strings.Repeat("b", fl.q.BL))).WithContext(ctx)
+				var body io.Reader = strings.NewReader(strings.Repeat("b", fl.q.BL))
+				if fl.q.GZ {
+					var zb bytes.Buffer
+					zw := gzip.NewWriter(&zb)
+					zw.Write([]byte(strings.Repeat("b", fl.q.BL)))
+					zw.Close()
+					body = &zb
+				}
+				if fl.q.BB {
+					body = c02BlockedBody{release}
+				}
+				r := httptest.NewRequest(c02Method(c.R[fl.q.Rt].M), c.routePath(fl.q.Rt), body).WithContext(ctx)
+				if fl.q.GZ {
+					r.Header.Set("Content-Encoding", "gzip")
+				}
 				r.ContentLength = int64(fl.q.CL)
 				r.Header.Set("X-C02-Id", fmt.Sprint(fl.id))
 				serve(fl.q.Rt, o.rec, r)
@@ -555,6 +599,7 @@ func c02Run(t *testing.T, c c02Case, build c02Builder, leakExpected bool) (v kit
 		if d := time.Duration(endUS)*time.Microsecond - time.Since(start); d > 0 {
 			time.Sleep(d)
 		}
+		close(release) // only now do the never-delivering bodies reach EOF
 		kit.Wait()
 	})
 
@@ -631,7 +676,7 @@ func c02Judge(c c02Case, flat []c02Flat, obs []*c02Obs, maxCur []int32, cls map[
 		if fmt.Sprint(c02Markers(o.closeHdr)) != fmt.Sprint(c02Markers(o.rec.hdr)) {
 			return fmt.Sprintf("%s: client header map changed after the response was complete: %v -> %v", who, o.closeHdr, o.rec.hdr)
 		}
-		got := fmt.Sprintf("status %d, marker headers %v, body %q, completed at +%dµs", o.rec.code, c02Markers(o.rec.snap), o.rec.body, o.doneUS-fl.arrUS)
+		got := fmt.Sprintf("status %d, marker headers %v, body %s, completed at +%dµs", o.rec.code, c02Markers(o.rec.snap), c02Q(o.rec.body), o.doneUS-fl.arrUS)
 		noTrace := func() string {
 			if bytes.Contains(o.rec.body, []byte(c02Marker)) {
 				return "handler bytes reached the client"
@@ -752,7 +797,7 @@ func c02Judge(c c02Case, flat []c02Flat, obs []*c02Obs, maxCur []int32, cls map[
 			if p.panics {
 				// statement: status only; body and headers must still be the request's own
 				if !bytes.HasPrefix(p.body, o.rec.body) {
-					return fmt.Sprintf("body %q is not what the handler wrote before panicking (%q)", o.rec.body, p.body)
+					return fmt.Sprintf("body %s is not what the handler wrote before panicking (%s)", c02Q(o.rec.body), c02Q(p.body))
 				}
 				for k, v := range gm {
 					if wm[k] != v {
@@ -761,7 +806,7 @@ func c02Judge(c c02Case, flat []c02Flat, obs []*c02Obs, maxCur []int32, cls map[
 				}
 			} else {
 				if !bytes.Equal(o.rec.body, p.body) {
-					return fmt.Sprintf("body %q, want %q", o.rec.body, p.body)
+					return fmt.Sprintf("body %s, want %s", c02Q(o.rec.body), c02Q(p.body))
 				}
 				if fmt.Sprint(gm) != fmt.Sprint(wm) {
 					return fmt.Sprintf("marker headers %v, want %v", gm, wm)
@@ -809,6 +854,18 @@ func c02Judge(c c02Case, flat []c02Flat, obs []*c02Obs, maxCur []int32, cls map[
 			case q.Cn == t:
 				cls["client-cancel=timeout"] = true
 			}
+		}
+		if p.big {
+			cls["body>1KB"] = true
+			if c.V {
+				cls["body>1KB+verbose-log-handler"] = true
+			}
+		}
+		if q.GZ {
+			cls["request-gzip-body"] = true
+		}
+		if q.BB {
+			cls["request-body-never-delivers"] = true
 		}
 		if p.before && p.after {
 			cls["write-straddles-deadline"] = true
@@ -938,6 +995,12 @@ func c02GenCase(rt *rapid.T) c02Case {
 				q.Cn = c02Rel(rt, d, 0, "cn")
 			}
 			mb := c.maxBytes(q.Rt)
+			switch rapid.IntRange(0, 9).Draw(rt, "bodykind") {
+			case 0:
+				q.GZ = true
+			case 1, 2:
+				q.BB = true
+			}
 			q.BL = rapid.IntRange(0, 70).Draw(rt, "bl")
 			q.CL = q.BL
 			if mb > 0 {
@@ -1020,7 +1083,16 @@ func c02GenProg(rt *rapid.T, t, cn int, benign bool) []c02Step {
 			}
 			wrote = true
 		case "W":
-			p = append(p, c02Step{K: "W", N: rapid.IntRange(1, 3).Draw(rt, "n")})
+			n := rapid.IntRange(1, 3).Draw(rt, "n")
+			switch rapid.IntRange(0, 11).Draw(rt, "size") {
+			case 0: // one large Write: around 1 KB, a few KB, up to ~64 KB
+				n = rapid.SampledFrom([]int{110, 114, 120, 400, 1500, 7000}).Draw(rt, "bign")
+			case 1: // many small Writes
+				p = append(p, c02Step{K: "M", N: rapid.SampledFrom([]int{2, 5, 113, 115, 300}).Draw(rt, "many")})
+				wrote = true
+				continue
+			}
+			p = append(p, c02Step{K: "W", N: n})
 			wrote = true
 		case "Z":
 			z := c02Rel(rt, d, elapsed, "z")
